@@ -771,8 +771,13 @@ def body_interp(case, ctx):
         kw["use_log"] = True
     # a decoy call on the same grid object first (other data, other points, no derivative): whatever the grid remembers
     # from it must not leak into the call that is checked
-    g.interpolate(q[::-1].copy() * 0.999 + 0.001 * q.mean(axis=0), (np.abs(vals[::-1]) * 0.5 + 0.25).copy(), **({"use_log": True} if use_log else {}))
-    got = np.asarray(g.interpolate(q.copy(), vals.copy(), **kw), dtype=float)
+    # ... the decoy data sit in the SAME values array that is then re-filled in place with the data under test
+    vbuf = (np.abs(vals[::-1]) * 0.5 + 0.25).copy()
+    g.interpolate(q[::-1].copy() * 0.999 + 0.001 * q.mean(axis=0), vbuf, **({"use_log": True} if use_log else {}))
+    g.interpolate(q.copy(), vbuf, **kw)
+    vbuf[...] = vals
+    got = np.asarray(g.interpolate(q.copy(), vbuf, **kw), dtype=float)
+    ctx.check(np.array_equal(vbuf, vals), "interpolate-modified-values", f"{what}: interpolate changed the values array in place")
     if got.shape != (len(q),):
         ctx.fail("interpolate-shape", f"{what}: {len(q)} points -> output shape {got.shape}")
         return
